@@ -293,6 +293,41 @@ def relational(run, seed, models, thorough):
     return n
 
 
+def spec_q_backends(run, rec):
+    """Every exponentiation back-end on a MarkovQ instance: P(t) against scipy's expm of the SPEC's exact Q (float, harness
+    side), row-stochastic, and the same under every setting.  `checked` may refuse (ArithmeticError): a refusal is not a
+    wrong answer."""
+    from scipy.linalg import expm as sexpm
+
+    states = sorted("".join(w) for w, _ in rec["wp"])
+    idx = {s: i for i, s in enumerate(states)}
+    Q = np.zeros((len(states), len(states)))
+    for i, j, q in rec["cells"]:
+        Q[idx["".join(i)], idx["".join(j)]] = float(frac(q))
+    n = 0
+    for e in EXPM:
+        key = f"P-backends:{rec['name']}:{rec['tag']}:expm={e}"
+        try:
+            lf = make_lf(rec)
+            lf.set_expm(e)
+            P = lf.get_psub_for_edge("b")
+            names = list(P.template.names[0])
+            arr = np.asarray(P.array, dtype=float)
+            t = lf.get_param_value("length", edge="b")
+        except ArithmeticError:
+            run.cov.setdefault("by_action", {}).setdefault("backend-refused", 0)
+            run.cov["by_action"]["backend-refused"] += 1
+            continue
+        order = [idx[x] for x in names]
+        ref = sexpm(Q * t)[np.ix_(order, order)]
+        n += 1
+        if np.abs(arr.sum(axis=1) - 1).max() > 1e-9 or arr.min() < -1e-12:
+            run.fail(key + ":not-row-stochastic", {"instance": rec["name"], "tag": rec["tag"], "params": rec["params"], "row_sums": arr.sum(axis=1).tolist()}, what="P(t) rows do not sum to one / negative entry")
+        elif np.abs(arr - ref).max() > 1e-9:
+            run.fail(key + ":differs-from-exp-of-published-Q", {"instance": rec["name"], "tag": rec["tag"], "params": rec["params"], "max_abs_diff": float(np.abs(arr - ref).max())}, what="P(t) differs from exp(Qt) of the published Q")
+    return n
+
+
 def check(run: Run):
     cfg = "MC_MarkovQ_quick.cfg" if run.tier == "quick" else "MC_MarkovQ_thorough.cfg"
     with Scratch("C05") as scratch:
@@ -314,6 +349,8 @@ def check(run: Run):
                 run.cov["by_action"]["Refuse"] += 1
                 continue
             ncells += check_Q(run, rec)
+            if rec["L"] == 1:
+                ncells += spec_q_backends(run, rec)
             run.sample({"instance": rec["name"], "tag": rec["tag"], "params": rec["params"], "mu": rec["mu"], "n_cells": len(rec["cells"])}, limit=3)
         emit2 = scratch / "p.ndjson"
         res2 = run_tlc("MarkovP", "MC_MarkovP.cfg", scratch, workers=1, env={"EMIT_FILE": emit2}, timeout=600)
